@@ -101,6 +101,16 @@ class _StatePointDict(JSONAttrDict):
             **kwargs,
         )
 
+    def __setstate__(self, state):
+        self.__dict__.update(state)
+        # The lock that guards the state point file is registered by the
+        # constructor, which unpickling bypasses: a job unpickled in another
+        # process could not modify its state point.
+        if self._supports_threading and self._filename is not None:
+            with self._cls_lock:
+                if self._lock_id not in self._locks:
+                    self._locks[self._lock_id] = RLock()
+
     def _load(self):
         # State points never load from disk automatically. They are either
         # initialized with provided data (e.g. from the state point cache), or
